@@ -65,6 +65,8 @@ def run_check(pid, tier, seed):
         rank = {"refuted": 0, "undecided": 1, "proved": 2}
         vs.sort(key=lambda v: rank.get(v.status, 1))
         w = vs[0]
+        if w.o.kind == "cover":
+            w = vs[-1]  # alternatives: reachable if any instance is satisfiable
         d = dict(w.detail)
         d["stage"] = w.stage
         d["path_instances"] = len(vs)
@@ -126,6 +128,7 @@ def main(argv=None):
     ap.add_argument("--tier", default=os.environ.get("VERIF_TIER", "quick"))
     ap.add_argument("--replay")
     ap.add_argument("--verbose", "-v", action="store_true")
+    ap.add_argument("--update-baseline", action="store_true", help="development only: record which obligations are proved on this tree")
     a = ap.parse_args(argv)
     pid = a.pid.upper()
     seed = int(os.environ.get("VERIF_SEED", "0"))
@@ -153,6 +156,12 @@ def main(argv=None):
     undecided = [r for r in results if r.status not in ("proved", "refuted")]
     bounded_bad = [r for r in bounded if r.status == "refuted"]
     violations, known = [], []
+    bpath = os.path.join(ROOT, "baseline", pid + ".json")
+    baseline = set(json.load(open(bpath))["proved"]) if os.path.exists(bpath) else set()
+    if a.update_baseline:
+        os.makedirs(os.path.join(ROOT, "baseline"), exist_ok=True)
+        json.dump({"property": pid, "proved": sorted(r.name for r in proved)}, open(bpath, "w"), indent=1)
+        print(f"baseline written: {len(proved)} proved obligations")
     for r in refuted + bounded_bad:
         path, rec = None, {}
         f = match_finding(findings, pid, r, rec)
@@ -161,7 +170,17 @@ def main(argv=None):
             print(f"KNOWN-FINDING: property={pid} {f['what']} [obligation {r.name}]")
             continue
         path, rec = replay_violation(cm, pid, r)
+        # A stage-2 'sat' is only a candidate (hypotheses were weakened by instantiation).  It counts as a
+        # violation when it replays on the real code, or when this obligation was proved on the unchanged
+        # tree (committed baseline) and now has a counter-model; otherwise it is undecided.
+        candidate_only = r.detail.get("stage") == 2 and r.kind not in ("frame", "site-exists", "finite")
+        if candidate_only and not rec.get("replayed") and r.name not in baseline:
+            r.status = "undecided"
+            r.detail["note"] = "stage-2 candidate model only, not replayed, obligation not in proved baseline"
+            undecided.append(r)
+            continue
         violations.append((r, path, rec))
+    refuted = [r for r in refuted if r.status == "refuted"]
     for r, path, rec in violations:
         tail = "" if rec.get("replayed") else " no-failing-input-found"
         print(f"VIOLATION property={pid} replay={path}{tail}")
